@@ -31,6 +31,8 @@ func c02(c *Ctx) (*report.Result, error) {
 	}
 	if f := resolve(c, res, "O2.4", anchor{"proxy", "*proxyStreamReceiver", "recvReplicationMessages"}); f != nil {
 		checkHandOffLoop(c, res, f)
+		res.RuleDoc["O2.5"] = "a message handed to a target stream is a fresh object: nothing reachable from it is written after the hand-over (the sender goroutine rewrites ids in it later)"
+		checkNoWriteAfterHandover(c, res, "O2.5", f, "routed message")
 	}
 	res.Explanation = "SSA of proxy.NewClusterConnection (which shard count the RoutingParameters closure selects for the server that forwards to each cluster) and of the chain buildProxyServer -> NewAdminServiceProxyServer -> StreamWorkflowReplicationMessages -> handleStream -> streamRouting -> proxyStreamReceiver (the count and the reverse client reach the receiver unchanged), of recvReplicationMessages (arguments of WorkflowIDToHistoryShard, the retry loop's bookkeeping) and of proxyStreamSender.sendReplicationMessages (who writes nextProxyTaskID, by how much, under which lock, followed by which ring append; which values the id fields and the exclusive high watermark receive). Necessary shapes of 'each task once, to the owning shard, with strictly increasing ids and a covering watermark'; exactly-once, ordering and watermark monotonicity under interleavings of several sources are not decided. Observation (no rule): tasks without RawTaskInfo / namespace id / workflow id are dropped from the grouping without an error."
 	res.Assumptions = []string{"servercommon.WorkflowIDToHistoryShard is Temporal's shard hash"}
@@ -56,6 +58,46 @@ func checkRoutingCountFlow(c *Ctx, res *report.Result) {
 			b0 := strings.TrimSuffix(p0, ".RawTaskInfo.NamespaceId")
 			b1 := strings.TrimSuffix(p1, ".RawTaskInfo.WorkflowId")
 			res.Check(b0 == b1, rule, "recvReplicationMessages: namespace id and workflow id are taken from one task", instrPos(c.Prog, calls[0]), "ok", "the hash mixes fields of different tasks")
+			// the shard under which a task is grouped is the hash of that very task, computed in this iteration
+			okOwn := false
+			whyOwn := "no ShardID is built from the hash"
+			for _, b := range f.Blocks {
+				for _, ins := range b.Instrs {
+					if st, ok := ins.(*ssa.Store); ok {
+						if fa, ok := st.Addr.(*ssa.FieldAddr); ok && flow.FieldName(fa.X.Type(), fa.Field) == "ShardID" {
+							if _, isLit := fa.X.(*ssa.Alloc); !isLit {
+								continue
+							}
+							if !calls[0].Block().Dominates(b) && calls[0].Block() != b {
+								continue
+							}
+							if st.Val == ssa.Value(calls[0].(*ssa.Call)) {
+								okOwn = true
+							} else {
+								whyOwn = "the shard id under which the task is grouped is " + flow.Describe(st.Val) + ", not the result of hashing this task in this iteration (a value carried over from another task / a cache would route the task to a shard that does not own it)"
+							}
+						}
+					}
+				}
+			}
+			// also catch the cached form: the hash call no longer dominates the grouping
+			for _, b := range f.Blocks {
+				for _, ins := range b.Instrs {
+					if st, ok := ins.(*ssa.Store); ok {
+						if fa, ok := st.Addr.(*ssa.FieldAddr); ok && flow.FieldName(fa.X.Type(), fa.Field) == "ShardID" {
+							if _, isLit := fa.X.(*ssa.Alloc); isLit && flow.NamedIs(fa.X.Type(), srvPath+"/client/history", "ClusterShardID") {
+								if st.Val != ssa.Value(calls[0].(*ssa.Call)) {
+									if _, isPhi := flow.ResolveLoad(st.Val).(*ssa.Phi); isPhi {
+										okOwn = false
+										whyOwn = "the shard id under which the task is grouped is a loop-carried value, not the hash of this task: a task can inherit the shard of another task"
+									}
+								}
+							}
+						}
+					}
+				}
+			}
+			res.Check(okOwn, rule, "recvReplicationMessages: each task is grouped under the hash of its own ids", instrPos(c.Prog, calls[0]), "ShardID = WorkflowIDToHistoryShard(this task)", whyOwn)
 			// the computed shard addresses the target cluster
 			okCluster := false
 			for _, b := range f.Blocks {
